@@ -419,15 +419,24 @@ struct StringStream {
         const SizeT     new_length = (Length() + len);
 
         if (Capacity() < new_length) {
-            expand(new_length);
-        }
+            // 'str' can point into this stream: keep the old storage until it has been copied from.
+            Char_T *old = grow(new_length);
 
-        Memory::Copy((Storage() + Length()), str, (len * size));
+            Memory::Copy((Storage() + Length()), str, (len * size));
+            Memory::Deallocate(old);
+        } else {
+            Memory::Copy((Storage() + Length()), str, (len * size));
+        }
 
         setLength(new_length);
     }
 
     void expand(const SizeT new_capacity) {
+        Memory::Deallocate(grow(new_capacity));
+    }
+
+    // Moves the content to a larger storage and returns the old one (to be released by the caller).
+    Char_T *grow(const SizeT new_capacity) {
         constexpr SizeT size = sizeof(Char_T);
         Char_T         *str  = Storage();
 
@@ -439,7 +448,8 @@ struct StringStream {
 #endif
 
         Memory::Copy(Storage(), str, (Length() * size));
-        Memory::Deallocate(str);
+
+        return str;
     }
 
     void allocate(SizeT size) {
